@@ -30,6 +30,7 @@ const c13Symbols = "AETMBW" // Answer, Error, Timeout (swallowed), Method-not-fo
 type c13Transport struct {
 	Transport
 	onPing func() byte
+	late   time.Duration // how long an 'L' write takes
 }
 
 func (t *c13Transport) Connect(ctx context.Context) (Connection, error) {
@@ -47,9 +48,14 @@ type c13Conn struct {
 
 func (c *c13Conn) Write(ctx context.Context, msg jsonrpc.Message) error {
 	if req, ok := msg.(*jsonrpc.Request); ok && req.IsCall() && req.Method == "ping" {
-		if c.t.onPing() == 'W' {
+		switch c.t.onPing() {
+		case 'W':
 			<-ctx.Done()
 			return ctx.Err()
+		case 'L':
+			// a write that does not look at its context (a blocking pipe, a slow middleware) and takes
+			// longer than the ping may, and then some: the loop misses the next tick
+			time.Sleep(c.t.late)
 		}
 	}
 	return c.Connection.Write(ctx, msg)
@@ -308,6 +314,109 @@ func c13Judge(pattern string, interval time.Duration, threshold int, horizon tim
 	}
 }
 
+// c13LateCase: pings whose write overruns (fate 'L': the write ignores its context for 1.6
+// intervals, then goes through and is answered - too late, that ping is a miss) between pings that
+// are answered at once ('A').  The loop comes back late and finds a stale tick waiting; the ping it
+// sends then is a ping like any other: it reaches the peer and its answer counts.  So the session is
+// closed iff `threshold` L's come in a row.
+func c13LateCase(side string, threshold int, pattern string) (bad, sig string) {
+	fail := func(s, format string, a ...any) {
+		if bad == "" {
+			sig, bad = "c13 late-tick "+s, fmt.Sprintf(format, a...)
+		}
+	}
+	const interval = 2 * time.Second
+	ctx := context.Background()
+	ct, st := NewInMemoryTransports()
+	peerRWC := ct.rwc
+	k, seen := 0, 0
+	horizonReached := false
+	sessT := &c13Transport{Transport: st, late: interval * 16 / 10, onPing: func() byte {
+		act := byte('A')
+		if !horizonReached && k < len(pattern) {
+			act = pattern[k]
+		}
+		k++
+		return act
+	}}
+	handshake := make(chan struct{})
+	go func() {
+		sc := bufio.NewScanner(peerRWC)
+		sc.Buffer(make([]byte, 1<<20), 1<<20)
+		write := func(s string) { io.WriteString(peerRWC, s+"\n") }
+		if side == "server" {
+			write(`{"jsonrpc":"2.0","id":"init","method":"initialize","params":{"protocolVersion":"2025-06-18","capabilities":{},"clientInfo":{"name":"peer","version":"1"}}}`)
+		}
+		for sc.Scan() {
+			var m struct {
+				ID     json.RawMessage `json:"id"`
+				Method string          `json:"method"`
+			}
+			if json.Unmarshal(sc.Bytes(), &m) != nil {
+				continue
+			}
+			switch {
+			case m.Method == "" && string(m.ID) == `"init"`:
+				write(`{"jsonrpc":"2.0","method":"notifications/initialized","params":{}}`)
+				close(handshake)
+			case m.Method == "initialize":
+				write(`{"jsonrpc":"2.0","id":` + string(m.ID) + `,"result":{"protocolVersion":"2025-06-18","capabilities":{},"serverInfo":{"name":"peer","version":"1"}}}`)
+			case m.Method == "ping":
+				seen++
+				write(`{"jsonrpc":"2.0","id":` + string(m.ID) + `,"result":{}}`)
+			}
+		}
+	}()
+	var sess c13Session
+	if side == "server" {
+		s := NewServer(&Implementation{Name: "srv", Version: "1"}, &ServerOptions{KeepAlive: interval, KeepAliveFailureThreshold: threshold, Logger: quietLogger})
+		ss, err := s.Connect(ctx, sessT, nil)
+		if err != nil {
+			return "connect: " + err.Error(), "c13 connect-failed"
+		}
+		sess = ss
+		<-handshake
+	} else {
+		c := NewClient(&Implementation{Name: "cli", Version: "1"}, &ClientOptions{KeepAlive: interval, KeepAliveFailureThreshold: threshold, Logger: quietLogger})
+		cs, err := c.Connect(ctx, sessT, &ClientSessionOptions{ProtocolVersion: "2025-06-18"})
+		if err != nil {
+			return "connect: " + err.Error(), "c13 connect-failed"
+		}
+		sess = cs
+	}
+	closed := false
+	go func() { sess.Wait(); closed = true }()
+	time.Sleep(time.Duration(3*len(pattern)+4) * interval)
+	synctest.Wait()
+	horizonReached = true
+	run, maxRun := 0, 0
+	for _, c := range pattern {
+		if c == 'L' {
+			run++
+			maxRun = max(maxRun, run)
+		} else {
+			run = 0
+		}
+	}
+	th := max(threshold, 1)
+	switch {
+	case maxRun >= th && !closed:
+		fail(fmt.Sprintf("dead-session-not-closed th=%d", threshold), "fates %q: %d pings in a row overran their deadline but the session is still open", pattern, maxRun)
+	case maxRun < th && closed:
+		fail(fmt.Sprintf("live-session-closed th=%d", threshold), "fates %q (L = the ping's write takes 1.6 intervals and is then answered, A = answered at once): never %d misses in a row, yet keep-alive closed the session; the peer saw %d pings", pattern, th, seen)
+	case maxRun < th:
+		pctx, cancel := context.WithTimeout(ctx, interval)
+		if err := sess.Ping(pctx, nil); err != nil {
+			fail("live-session-unusable", "fates %q: session open but a ping fails: %v", pattern, err)
+		}
+		cancel()
+	}
+	sess.Close()
+	peerRWC.Close()
+	synctest.Wait()
+	return bad, sig
+}
+
 func TestVerifC13(t *testing.T) {
 	env := verifx.LoadEnv("C13")
 	res := env.NewResult()
@@ -367,6 +476,42 @@ func TestVerifC13(t *testing.T) {
 					cases.Record(idx, fmt.Sprintf("th=%d %s", th, cls), len(p)+1, desc)
 				})
 			}
+		}
+	}
+	late := env.NewCases(res, "late-tick-patterns")
+	var genL func(p string, n int, f func(string))
+	genL = func(p string, n int, f func(string)) {
+		f(p)
+		if n == 0 {
+			return
+		}
+		for _, c := range "AL" {
+			genL(p+string(c), n-1, f)
+		}
+	}
+	for _, side := range []string{"server", "client"} {
+		for th := 1; th <= 3; th++ {
+			genL("", 4, func(p string) {
+				idx, mine := late.Next()
+				if !mine {
+					return
+				}
+				var bad, sig string
+				func() {
+					defer func() {
+						if r := recover(); r != nil {
+							bad, sig = fmt.Sprintf("fates %q: panic / bubble failure: %v", p, r), "c13 late-tick panic-or-leak"
+						}
+					}()
+					synctest.Test(t, func(t *testing.T) { bad, sig = c13LateCase(side, th, p) })
+				}()
+				desc := fmt.Sprintf("side=%s threshold=%d fates=%q", side, th, p)
+				if bad != "" {
+					late.Violate(idx, sig, bad+" ["+desc+"]", len(p)+1)
+					return
+				}
+				late.Record(idx, fmt.Sprintf("late th=%d", th), len(p)+1, func() string { return desc })
+			})
 		}
 	}
 	env.Finish(res)
